@@ -420,6 +420,33 @@ Definition glue_ilv (a o : list value) : option verdict :=
   | _ => None
   end.
 
+(* ---- c11.conck: two calls on an empty fetcher while the key exchange is slow ---- *)
+Definition glue_conck (a o : list value) : option verdict :=
+  match o with
+  | [VL [VZ 99]] => Some (relational false false)
+  | [VL [VZ nke; VL headsv; VZ erra; VZ errb; VL factsv; VB k1; VB k2; VB ka; VB kb]] =>
+      match getBs headsv, parse_facts factsv with
+      | Some heads, Some facts =>
+          let pool := map cf_bytes facts in
+          (* oracle: one key exchange for one empty pool; never more than eight; every cookie in the pool
+             belongs to the session whose keys the fetcher holds; the two calls got different cookies,
+             which are gone from the pool; both calls work with the keys the fetcher holds *)
+          let oracle :=
+            (nke =? 1) && (zlen pool <=? 8) && distinct pool &&
+            forallb (fun f => match cf_keys f with
+                              | Some (x, y) => beq x k1 && beq y k2
+                              | None => false end) facts &&
+            distinct heads && forallb (fun h => negb (mem h pool)) heads &&
+            beq ka k1 && beq kb k1 in
+          (* model: the calls run one after the other: a key exchange, two cookies taken *)
+          let agree := negb (zb erra) && negb (zb errb) && (zlen pool =? 6) &&
+                       forallb (fun h => negb (beq h [])) heads in
+          Some (relational agree oracle)
+      | _, _ => None
+      end
+  | _ => None
+  end.
+
 Definition glue_C11 (k : string) (a o : list value) : option verdict :=
   if is k "c11.const" then
     Some (functional [VZ MaxPacketLen; VZ serverCookieLen; VZ ntpPacketLen] o
@@ -434,6 +461,7 @@ Definition glue_C11 (k : string) (a o : list value) : option verdict :=
   else if is k "c11.srv" then glue_srv a o
   else if is k "c11.conc" then glue_conc a o
   else if is k "c11.ilv" then glue_ilv a o
+  else if is k "c11.conck" then glue_conck a o
   else None.
 
 Definition run_case k a o := first_some [glue_C11] k a o.
